@@ -252,6 +252,20 @@ CLAIMS = {
              "every save). Trusted: " + TB,
         technique="contract-based deductive verification (loop invariants over ghost header lists and symbolic maps, LIA/LRA stability lemma) + "
                   "bounded save/reopen cycle stand-in (mixed)"),
+    "C14": dict(
+        category="other", design="DESIGN.md section 7 C14",
+        text="Mixed. Proved (contract-based, real cell.py): _auto_units for every whole number of seconds (largest = largest unit reached, smallest = "
+             "coarsest unit dividing the value but not coarser than the largest, zero shows days); _unit_format for every value and style and "
+             "each of the six units. Complete ground checks: each directive lambda of DATETIME_FIELD_MAP reads only the field its documented "
+             "meaning depends on (syntactic, whole table) and renders the documented value, range and padding over that field's whole domain "
+             "(exhaustive: 24 hours, 60 minutes, 60 seconds, every day of four years, 12 months, 7 weekdays; sampled years and sub-seconds); "
+             "format validation uses the same table. The format parser (_decode_date_format: literals, quotes, concatenation) and "
+             "_duration_format (float division per unit) are not under contract: bounded stand-in with an independent oracle and a "
+             "display-parse-back check, so the level is not 'proof'.",
+        note="Genuine defects repaired: fix: commits d3185f4 (k/kk printed 124 for 10:00), 2615b0e (automatic units for whole weeks), 6291058 "
+             "(escaped quote emitted before the pending directive), e49d46d (documentation of y). Trusted: " + TB,
+        technique="contract-based deductive verification of the unit selection/labelling functions + complete per-field ground evaluation of the "
+                  "directive table + bounded composition / duration parse-back stand-in (mixed)"),
 }
 NA_REASON = "check not built yet (build in progress; see DESIGN.md section 7 for the plan)"
 
